@@ -6,6 +6,7 @@ import (
 	"bytes"
 	"context"
 	"errors"
+	"math/bits"
 	"net"
 	"time"
 
@@ -29,6 +30,10 @@ import (
 type vmNodeGhost struct {
 	loadOutcome int // 0 = "pv" entry present and decodable, 1 = key not found, 2 = other error
 	versions    []uint8
+	id          enode.ID
+	ip          net.IP // identity of this slice stands for the node's address
+	relayOK     bool   // whether that address may be relayed to the current asker
+	udp         int
 }
 
 var vmNodes = map[*enode.Node]*vmNodeGhost{}
@@ -123,9 +128,28 @@ func vhNode(outcome int, versions []uint8) *enode.Node {
 		}
 		return enode.SignNull(&r, enode.ID{1})
 	}
+	return vhNodeWithID(outcome, versions, enode.ID(vsArr32("node-id")))
+}
+
+// vhNodeWithID: an opaque node whose id is the given (symbolic) value.
+func vhNodeWithID(outcome int, versions []uint8, id enode.ID) *enode.Node {
 	n := new(enode.Node)
-	vmNodes[n] = &vmNodeGhost{loadOutcome: outcome, versions: versions}
+	g := &vmNodeGhost{loadOutcome: outcome, versions: versions, id: id}
+	vmNodes[n] = g
+	vmNodesList = append(vmNodesList, g)
 	return n
+}
+
+// vmNodeID: the ghost id of harness-made nodes; any other node (e.g. the local node) has an
+// arbitrary but fixed id.
+func vmNodeID(n *enode.Node) enode.ID {
+	if g := vmNodes[n]; g != nil {
+		return g.id
+	}
+	g := &vmNodeGhost{loadOutcome: 1, id: enode.ID(vsArr32("other-node-id"))}
+	vmNodes[n] = g
+	vmNodesList = append(vmNodesList, g)
+	return g.id
 }
 
 func vhVersionCache() cache.Cache[*enode.Node, uint8] {
@@ -141,7 +165,8 @@ func vhVersionCache() cache.Cache[*enode.Node, uint8] {
 // symbolic 32 bytes every time.
 //
 //verif:group node
-//verif:stub attr (*github.com/ethereum/go-ethereum/p2p/enode.Node).ID (*github.com/ethereum/go-ethereum/p2p/enode.Node).Seq (*github.com/ethereum/go-ethereum/p2p/enode.Node).UDP (*github.com/ethereum/go-ethereum/p2p/enode.Node).TCP (*github.com/ethereum/go-ethereum/p2p/enode.Node).IP (*github.com/ethereum/go-ethereum/p2p/enode.Node).IPAddr (*github.com/ethereum/go-ethereum/p2p/enode.Node).Record
+//verif:model (*github.com/ethereum/go-ethereum/p2p/enode.Node).ID = vmNodeID
+//verif:stub attr (*github.com/ethereum/go-ethereum/p2p/enode.Node).Seq (*github.com/ethereum/go-ethereum/p2p/enode.Node).UDP (*github.com/ethereum/go-ethereum/p2p/enode.Node).TCP (*github.com/ethereum/go-ethereum/p2p/enode.Node).IP (*github.com/ethereum/go-ethereum/p2p/enode.Node).IPAddr (*github.com/ethereum/go-ethereum/p2p/enode.Node).Record
 //verif:stub havoc (net.IP).To4
 //verif:model (github.com/ethereum/go-ethereum/p2p/enode.ID).String = vmIDString
 //verif:stub noop (net.IP).String (net/netip.Addr).String (*github.com/ethereum/go-ethereum/p2p/enode.Node).String (*net.UDPAddr).String
@@ -394,4 +419,148 @@ func vhOfferRequest(kind int, k int) *OfferRequest {
 	}
 	return &OfferRequest{Kind: TransientOfferRequestWithResultKind, Request: &TransientOfferRequestWithResult{
 		Content: &ContentEntry{ContentKey: []byte{1}, Content: []byte{0x10}}, Result: make(chan *OfferTrace, 1)}}
+}
+
+// ---- LogDist summary ----------------------------------------------------------------------------
+
+// vmLogDist: fork-free form of enode.LogDist (256 - number of leading zero bits of a XOR b).
+// C11.lemma_logdist proves it equal to the real function for all ids.
+func vmLogDist(a, b enode.ID) int {
+	r := 0
+	for i := 31; i >= 0; i-- {
+		if x := a[i] ^ b[i]; x != 0 {
+			r = 8*(32-i) - bits.LeadingZeros8(x)
+		}
+	}
+	return r
+}
+
+//verif:group logdist
+//verif:model github.com/ethereum/go-ethereum/p2p/enode.LogDist = vmLogDist
+func vgLogDist() {}
+
+// ---- table contents and ENR encoding for the reply builders -----------------------------------
+
+var (
+	vhTableNodes []*enode.Node
+	vhEnrBytes   = map[*enr.Record][]byte{}
+)
+
+func vmNodeList(tab *Table) []*enode.Node { return append([]*enode.Node(nil), vhTableNodes...) }
+
+// vmEncodeRecord: the RLP of a record is an opaque byte string of the size chosen by the harness.
+func vmEncodeRecord(val interface{}) ([]byte, error) {
+	if r, ok := val.(*enr.Record); ok {
+		if b, ok := vhEnrBytes[r]; ok {
+			return b, nil
+		}
+	}
+	return nil, vmErrLoad
+}
+
+//verif:group tablenodes
+//verif:model (*github.com/zen-eth/shisui/portalwire.Table).nodeList = vmNodeList
+//verif:model github.com/ethereum/go-ethereum/rlp.EncodeToBytes = vmEncodeRecord
+func vgTableNodes() {}
+
+// vhAddTableNode: a table node with symbolic id and an ENR whose size is one of {1, 300, 580}
+// (shape enumeration: minimal, the spec maximum, and an oversize record that forces truncation
+// with few nodes); contents symbolic except the first byte, which tags the node.
+var vhEnrSizes = []int{1, 300, 580}
+
+func vhAddTableNode(maxEnr int) *enode.Node {
+	return vhAddTableNodeWithID(enode.ID(vsArr32("node-id")))
+}
+
+func vhAddTableNodeWithID(id enode.ID) *enode.Node {
+	n := vhNodeWithID(0, []uint8{0, 1}, id)
+	sz := vhEnrSizes[vsChoose("enr-size", len(vhEnrSizes))]
+	b := vsBytesN("enr", sz)
+	b[0] = byte(len(vhTableNodes) + 1)
+	vhEnrBytes[n.Record()] = b
+	vhTableNodes = append(vhTableNodes, n)
+	return n
+}
+
+// vhNearID: an id that differs from ref only in its first two bytes (log-distance 0 or 241..256):
+// keeps distance comparisons to 16 symbolic bits; the other byte positions are covered by the
+// LogDist lemma.
+func vhNearID(ref []byte) enode.ID {
+	var id enode.ID
+	copy(id[:], ref)
+	id[0], id[1] = vsU8("id-b0"), vsU8("id-b1")
+	return id
+}
+
+// ---- addresses, relay check, shuffle, transport --------------------------------------------------
+
+func vmNodeIP(n *enode.Node) net.IP {
+	g := vmNodes[n]
+	if g == nil {
+		vmNodeID(n)
+		g = vmNodes[n]
+	}
+	if g.ip == nil {
+		g.ip = make(net.IP, 4)
+		g.relayOK = vsBool("relay-ok")
+	}
+	return g.ip
+}
+
+func vmNodeUDP(n *enode.Node) int {
+	g := vmNodes[n]
+	if g == nil {
+		vmNodeID(n)
+		g = vmNodes[n]
+	}
+	return g.udp
+}
+
+// vmCheckRelayIP: the verdict is a ghost attribute of the node the address belongs to.
+func vmCheckRelayIP(sender, addr net.IP) error {
+	for _, g := range vmNodesList {
+		if len(g.ip) > 0 && len(addr) > 0 && &g.ip[0] == &addr[0] {
+			if g.relayOK {
+				return nil
+			}
+			return vmErrLoad
+		}
+	}
+	return vmErrLoad
+}
+
+// vmNodesList mirrors vmNodes in creation order (map iteration order is not used by the models).
+var vmNodesList []*vmNodeGhost
+
+// vmShuffle: one arbitrary transposition (enough to show that order in the reply is not relied on).
+func vmShuffle(r *reseedingRandom, n int, swap func(i, j int)) {
+	if n >= 2 {
+		swap(0, vsChoose("shuffle-j", n))
+	}
+}
+
+type vmTransport struct{ self *enode.Node }
+
+func (t *vmTransport) Self() *enode.Node                             { return t.self }
+func (t *vmTransport) RequestENR(n *enode.Node) (*enode.Node, error) { return nil, vmErrLoad }
+func (t *vmTransport) lookupRandom() []*enode.Node                   { return nil }
+func (t *vmTransport) lookupSelf() []*enode.Node                     { return nil }
+func (t *vmTransport) ping(n *enode.Node) (uint64, error)            { return 0, vmErrLoad }
+
+//verif:group tableenv
+//verif:use node logdist
+//verif:model (*github.com/ethereum/go-ethereum/p2p/enode.Node).IP = vmNodeIP
+//verif:model (*github.com/ethereum/go-ethereum/p2p/enode.Node).UDP = vmNodeUDP
+//verif:model github.com/ethereum/go-ethereum/p2p/netutil.CheckRelayIP = vmCheckRelayIP
+//verif:model (*github.com/zen-eth/shisui/portalwire.reseedingRandom).Shuffle = vmShuffle
+//verif:model github.com/ethereum/go-ethereum/rlp.EncodeToBytes = vmEncodeRecord
+func vgTableEnv() {}
+
+// vhTable: an empty routing table around the given local node.
+func vhTable(self *enode.Node) *Table {
+	tab := &Table{net: &vmTransport{self: self}}
+	for i := range tab.buckets {
+		tab.buckets[i] = &bucket{index: i}
+	}
+	return tab
 }
